@@ -499,6 +499,19 @@ func genXW(r *Rand, tier string, emit func(string)) {
 		d := append(append(append([]byte{}, pre...), forged...), r.Bytes(30)...)
 		emit(fmtXwLine(xwCfg{level: -1, chunk: 0, index: 0}, "-", []xwOp{{kind: 'W', data: d}}, []string{"C"}) + " allcuts=1")
 	}
+	// a stored stream A | FlushFull | T | FlushSync where T is the index and footer of the honest
+	// stream "A, FlushFull, FlushFull, Close": cut before the last sync marker, the stream ends in a
+	// look-alike footer whose index maps the 5-byte stored-block header of T as an empty chunk
+	for _, n := range []int{1, 40, 300} {
+		a := r.Bytes(n)
+		cfg := xwCfg{level: -1, chunk: 0, index: 0}
+		honest, _, err := buildXflate(cfg, []xwOp{{kind: 'W', data: a}, {kind: 'F', mode: 1}, {kind: 'F', mode: 1}})
+		c0 := 5 + n + 5 // stored block and the sync marker of FlushFull
+		if err == nil && len(honest) > c0+5 {
+			t := honest[c0+5:]
+			emit(fmtXwLine(cfg, "-", []xwOp{{kind: 'W', data: a}, {kind: 'F', mode: 1}, {kind: 'W', data: t}, {kind: 'F', mode: 0}}, []string{"C"}) + " allcuts=1")
+		}
+	}
 	// plaintexts that embed XFLATE structure, stored (xflate.NoCompression = -1): C12/D6 territory
 	for i := 0; i < 20; i++ {
 		inner, _, err := buildXflate(randXwCfg(r), randXwOps(r, 4, 40))
